@@ -301,6 +301,42 @@ Theorem C19_unix_line_exact :
 Proof. exact unix_line_exact. Qed.
 Print Assumptions C19_unix_line_exact.
 
+(* windows `dir` line: date SP time SP AM|PM, spaces, <DIR> or a size with thousands separators,
+   spaces, name (no leading whitespace, no trailing CR/LF, not '.' / '..'); date and time tokens
+   without SP and without 'M': exactly these fields, the date being whatever strptime makes of
+   "date time xM" *)
+Theorem C19_windows_dir_exact :
+  forall dec win_date d tm ap gap gap2 col name eol b,
+    dec b = Some (win_line d tm ap gap col gap2 name ++ eol) ->
+    forallb (in_set [13; 10]) eol = true ->
+    headns d /\ no SP d /\ no 77 d -> tm <> [] /\ no SP tm /\ no 77 tm -> ap <> 77 /\ ap <> SP ->
+    headns col /\ no SP col ->
+    name <> [] /\ headns name /\ rstrip_chars [13; 10] name = name ->
+    is_dot_name name = false ->
+    col = DIRTAG ->
+    parse_list_line_windows dec win_date b
+    = bind (win_date (d ++ SP :: tm ++ SP :: [ap; 77]))
+           (fun modify => Ok (posix_norm name, [(k_modify, modify); (k_type, t_dir)])).
+Proof. exact windows_dir_exact. Qed.
+Print Assumptions C19_windows_dir_exact.
+
+Theorem C19_windows_file_exact :
+  forall dec win_date d tm ap gap gap2 col name eol b,
+    dec b = Some (win_line d tm ap gap col gap2 name ++ eol) ->
+    forallb (in_set [13; 10]) eol = true ->
+    headns d /\ no SP d /\ no 77 d -> tm <> [] /\ no SP tm /\ no 77 tm -> ap <> 77 /\ ap <> SP ->
+    headns col /\ no SP col ->
+    name <> [] /\ headns name /\ rstrip_chars [13; 10] name = name ->
+    is_dot_name name = false ->
+    starts_with DIRTAG col = false -> remove_char 44 col <> [] ->
+    forallb is_ascii_digit (remove_char 44 col) = true ->
+    parse_list_line_windows dec win_date b
+    = bind (win_date (d ++ SP :: tm ++ SP :: [ap; 77]))
+           (fun modify => Ok (posix_norm name,
+              [(k_modify, modify); (k_type, t_file); (k_size, remove_char 44 col)])).
+Proof. exact windows_file_exact. Qed.
+Print Assumptions C19_windows_file_exact.
+
 (* int() on a run of at most 4300 ASCII digits is its decimal value (used by the two above) *)
 Theorem C19_int_ascii_digits :
   forall ds, ds <> [] -> forallb is_ascii_digit ds = true -> Z.of_nat (length ds) <= int_max_str_digits ->
